@@ -232,8 +232,8 @@ Lemma mkdirall_step s p perm :
   is_dir_at s' key = true /\ chain_of key s s'.
 Proof.
   intros W Hw Hpre key s'. assert (Hc : canon key) by (apply canon_normalize; exact Hw).
-  assert (Wop : wf_op s (MkdirAll p perm) = true) by (cbn [wf_op]; now rewrite Hw, Hpre).
-  assert (W' : WF s') by (apply WF_step; assumption).
+  assert (Wop : wf_op_ord s (MkdirAll p perm) = true) by (cbn [wf_op_ord]; now rewrite Hw, Hpre).
+  assert (W' : WF s') by (apply WF_step_ord; assumption).
   split; [|split; [exact W'|]].
   - (* the result *)
     rewrite m_step_bump. cbn [snd m_step_raw]. unfold m_mkdirall.
@@ -334,14 +334,14 @@ Proof. intros W Hl ->. destruct (g_root _ _ _ _ W) as (r & n & H & _). congruenc
 
 (* Mkdir on a well-formed state (the name exists: EEXIST, nothing happens; or its parent is a directory) *)
 Lemma mkdir_step s p perm :
-  WF s -> wf_op s (Mkdir p perm) = true ->
+  WF s -> wf_op_ord s (Mkdir p perm) = true ->
   let key := normalize_path p in
   (lookup s key <> None -> m_step s (Mkdir p perm) = (bump s, RErr (EW KExist))) /\
   (lookup s key = None ->
      snd (m_step s (Mkdir p perm)) = ROk /\ fst (m_step s (Mkdir p perm)) = fst (m_step s (MkdirAll p perm)) /\
      prefixes_dirs s key = true).
 Proof.
-  intros W Hwf key. cbn [wf_op] in Hwf. apply andb_true_iff in Hwf as [Hw Hwf]. fold key in Hwf.
+  intros W Hwf key. cbn [wf_op_ord] in Hwf. apply andb_true_iff in Hwf as [Hw Hwf]. fold key in Hwf.
   assert (Hc : canon key) by (apply canon_normalize; exact Hw).
   split.
   - intros Hl. rewrite m_step_bump. cbn [m_step_raw]. unfold m_mkdir. fold key. destruct (lookup s key); [reflexivity | congruence].
@@ -692,7 +692,7 @@ Qed.
 
 (* OpenFile with O_CREATE on a free name (well-formed: the parent is a directory) *)
 Lemma openfile_create_step s p flag perm :
-  WF s -> wf_op s (OpenFile p flag perm) = true ->
+  WF s -> wf_op_ord s (OpenFile p flag perm) = true ->
   lookup s (normalize_path p) = None -> flag_has flag o_create = true ->
   let key := normalize_path p in
   let s' := fst (m_step s (OpenFile p flag perm)) in
@@ -705,8 +705,8 @@ Lemma openfile_create_step s p flag perm :
        (k' = key /\ r = f) \/ (below k' key = true /\ exists n, get_node s' r = Some n /\ ndir n = true /\ ndata n = [])).
 Proof.
   intros W Hwf Hl Hcr key s'. fold key in Hl.
-  assert (W' : WF s') by (apply WF_step; assumption).
-  cbn [wf_op] in Hwf. apply andb_true_iff in Hwf as [Hw Hwf]. apply andb_true_iff in Hw as [Hw Hfo]. fold key in Hwf.
+  assert (W' : WF s') by (apply WF_step_ord; assumption).
+  cbn [wf_op_ord] in Hwf. apply andb_true_iff in Hwf as [Hw Hwf]. apply andb_true_iff in Hw as [Hw Hfo]. fold key in Hwf.
   assert (Hc : canon key) by (apply canon_normalize; exact Hw).
   assert (Hk : kind_at s key = None) by (unfold kind_at; now rewrite Hl).
   rewrite Hk, Hcr in Hwf.
@@ -843,7 +843,7 @@ Qed.
 
 (* Rename on a well-formed state, well-formed call, the source exists and differs from the target *)
 Lemma rename_step_wf s p q f :
-  WF s -> wf_op s (Rename p q) = true -> lookup s (normalize_path p) = Some f -> normalize_path p <> normalize_path q ->
+  WF s -> wf_op_ord s (Rename p q) = true -> lookup s (normalize_path p) = Some f -> normalize_path p <> normalize_path q ->
   let s' := fst (m_step s (Rename p q)) in
   snd (m_step s (Rename p q)) = ROk /\ WF s' /\ MovedG (normalize_path p) (normalize_path q) s s'.
 Proof.
@@ -857,7 +857,7 @@ Lemma rename_noop s p q :
   lookup s (normalize_path p) = None \/ normalize_path p = normalize_path q -> fst (m_step s (Rename p q)) = bump s.
 Proof.
   intros H. rewrite m_step_bump. cbn [fst m_step_raw]. unfold m_rename.
-  destruct (lookup s (normalize_path p)) as [f|] eqn:Hl; [|reflexivity].
+  destruct (lookup s (normalize_path p)) as [f|] eqn:Hl; [|match goal with |- context [if ?c then _ else _] => destruct c end; reflexivity].
   destruct H as [H|H]; [discriminate|]. rewrite H, beqb_refl. reflexivity.
 Qed.
 
